@@ -68,6 +68,7 @@ def iE : Expr → List Item
     (match theTbl t with
      | some (_, tb, w) => [kwI "the", .sp, .tk (.id (nameOrUnknown tb k)), .sp, kwI "of", .sp, kwI w, .sp] ++ iE e
      | none => [])
+  | .oprop v o => [kwI "the", .sp, .tk (.id v), .sp, kwI "of", .sp] ++ iE o
   | _ => []
 def iArgs : List Expr → List Item
   | [] => []
@@ -219,7 +220,9 @@ theorem render_iE : ∀ (e : Expr), FragE e = true → render (iE e) = mE e
     | nil => cases t <;> first | (simp [FragE] at hf; done) | (simp only [iE, mE]; exact render_the _)
   | .key v, _ => by simp only [iE, mE]; exact render_the _
   | .movie v, _ => by simp only [iE, mE]; exact render_the _
-  | .oprop _ _, hf => by simp [FragE] at hf
+  | .oprop v o, hf => by
+    simp only [FragE, Bool.and_eq_true] at hf
+    simp [iE, mE, render_append, render_cons, render_iE o hf.2, Item.text, kwI, S, render_nil]
   | .chunk _ _ _ _, hf => by simp [FragE] at hf
 theorem render_iArgs : ∀ (as : List Expr), FragL as = true → render (iArgs as) = mArgs as
   | [], _ => rfl
@@ -285,7 +288,9 @@ theorem itoks_iE : ∀ (e : Expr), FragE e = true → itoks (iE e) = prE e
       | _ => simp [FragE] at hf
   | .key v, _ => by simp [iE, itoks, prE, kwI, kw]
   | .movie v, _ => by simp [iE, itoks, prE, kwI, kw]
-  | .oprop _ _, hf => by simp [FragE] at hf
+  | .oprop v o, hf => by
+    simp only [FragE, Bool.and_eq_true] at hf
+    simp [iE, itoks, itoks_append, itoks_iE o hf.2, prE, kwI, kw]
   | .chunk _ _ _ _, hf => by simp [FragE] at hf
 theorem itoks_iArgs : ∀ (as : List Expr), FragL as = true → itoks (iArgs as) = prArgs as
   | [], _ => rfl
@@ -328,7 +333,7 @@ theorem mE_ne_nil : ∀ (e : Expr), FragE e = true → mE e ≠ []
     | nil => cases t <;> first | (simp [FragE] at hf; done) | simp [mE, S]
   | .key _, _ => by simp [mE, S]
   | .movie _, _ => by simp [mE, S]
-  | .oprop _ _, hf => by simp [FragE] at hf
+  | .oprop _ _, _ => by simp [mE, S]
   | .chunk _ _ _ _, hf => by simp [FragE] at hf
 
 
@@ -453,7 +458,11 @@ theorem chain_iE : ∀ (e : Expr), FragE e = true → ∀ (rest : List Char), Sa
       | _ => simp [FragE] at hf
   | .key v, hf, rest, h => by simp only [FragE] at hf; simp only [iE]; exact chain_the _ hf rest h
   | .movie v, hf, rest, h => by simp only [FragE] at hf; simp only [iE]; exact chain_the _ hf rest h
-  | .oprop _ _, hf, _, _ => by simp [FragE] at hf
+  | .oprop v o, hf, rest, h => by
+    simp only [FragE, Bool.and_eq_true] at hf
+    have ih := chain_iE o hf.2 rest h
+    simp only [iE, List.cons_append, List.nil_append]
+    rw [chain_cons_sp _ _ _ (by decide), chain_cons_sp _ _ _ (by simpa [ItemOk] using hf.1.1), chain_cons_sp _ _ _ (by decide), ih]
   | .chunk _ _ _ _, hf, _, _ => by simp [FragE] at hf
 theorem chain_iArgs : ∀ (as : List Expr), FragL as = true → ∀ (rest : List Char), SafeHd rest → Chain (iArgs as) rest = true
   | [], _, _, _ => rfl
@@ -569,20 +578,24 @@ theorem itoks_iS (ind : Nat) (s : Stmt) (hf : FragS s = true) : itoks (iS ind s)
   | exit => simp [iS, itoks_append, itoks_indent, itoks, prS, kwI, kw]
   | _ => simp [FragS] at hf
 
+/-- an expression followed by an item list whose text starts with a blank / newline -/
+theorem chain_iE_then (e : Expr) (hf : FragE e = true) (c : Char) (hc : safeCh c = true) (X : List Item) (rest : List Char)
+    (hX : ∃ r, render X = c :: r) : Chain (iE e ++ X) rest = Chain X rest := by
+  obtain ⟨r, hr⟩ := hX
+  rw [chain_append, chain_iE e hf (render X ++ rest) ⟨c, r ++ rest, by rw [hr]; rfl, hc⟩, Bool.true_and]
+
+theorem render_sp_head (Y : List Item) : ∃ r, render (.sp :: Y) = ' ' :: r := ⟨render Y, rfl⟩
+theorem render_nl_head (Y : List Item) : ∃ r, render (.tk .nl :: Y) = '\n' :: r := ⟨render Y, rfl⟩
+
 theorem chain_iS (ind : Nat) (s : Stmt) (hf : FragS s = true) (l : List Item) (rest : List Char) :
     Chain (iS ind s ++ l) rest = Chain l rest := by
   cases s with
   | set lv v =>
     simp only [FragS, Bool.and_eq_true] at hf
-    have hlv : ∃ n, iE lv = [.tk (.id n)] ∧ idOk n = true := by
-      cases lv with
-      | var k n => exact ⟨n, rfl, by simpa [FragLv] using hf.1⟩
-      | _ => simp [FragLv] at hf
-    obtain ⟨n, hn, hid⟩ := hlv
-    simp only [iS, hn, List.append_assoc, List.cons_append, List.nil_append, chain_indent]
+    simp only [iS, List.append_assoc, List.cons_append, List.nil_append, chain_indent]
     have hv := chain_iE v hf.2 (render (.tk .nl :: l) ++ rest) ⟨'\n', _, rfl, safe_nl⟩
-    rw [chain_cons_sp _ _ _ (by decide), chain_cons_sp _ _ _ (by simpa [ItemOk] using hid), chain_cons_sp _ _ _ (by decide),
-      chain_append, hv, Bool.true_and, chain_nl]
+    rw [chain_cons_sp _ _ _ (by decide), chain_iE_then lv (fragLv_fragE lv hf.1) ' ' safe_sp _ _ (render_sp_head _), chain_sp,
+      chain_cons_sp _ _ _ (by decide), chain_append, hv, Bool.true_and, chain_nl]
   | call f as =>
     simp only [FragS, Bool.and_eq_true] at hf
     obtain ⟨⟨⟨hid, _⟩, _⟩, hfl⟩ := hf
@@ -663,6 +676,7 @@ theorem mE_not_lp (e : Expr) (hf : FragE e = true) (hn : notInfix e = true) : st
   | sym v => simp [mE, startsWith, S, List.isPrefixOf]
   | key v => simp [mE, startsWith, S, List.isPrefixOf]
   | movie v => simp [mE, startsWith, S, List.isPrefixOf]
+  | oprop v o => simp [mE, startsWith, S, List.isPrefixOf]
   | the t k as =>
     cases as with
     | cons x xs =>
@@ -676,12 +690,6 @@ theorem mCond_eq (c : Expr) (hf : FragE c = true) (hn : notInfix c = true) : mCo
   unfold mCond
   rw [mE_not_lp c hf hn]
   rfl
-
-/-- an expression followed by an item list whose text starts with a blank / newline -/
-theorem chain_iE_then (e : Expr) (hf : FragE e = true) (c : Char) (hc : safeCh c = true) (X : List Item) (rest : List Char)
-    (hX : ∃ r, render X = c :: r) : Chain (iE e ++ X) rest = Chain X rest := by
-  obtain ⟨r, hr⟩ := hX
-  rw [chain_append, chain_iE e hf (render X ++ rest) ⟨c, r ++ rest, by rw [hr]; rfl, hc⟩, Bool.true_and]
 
 mutual
 theorem render_iX : ∀ (s : Stmt), FragX s = true → ∀ (ind : Nat), render (iS ind s) = mS ind s
@@ -763,9 +771,6 @@ theorem itoks_iXs : ∀ (ss : List Stmt), FragXs ss = true → ∀ (ind : Nat), 
     simp only [FragXs, Bool.and_eq_true] at hf
     simp only [iSs, itoks_append, itoks_iX s hf.1 ind, itoks_iXs ss hf.2 ind, prSs]
 end
-
-theorem render_sp_head (Y : List Item) : ∃ r, render (.sp :: Y) = ' ' :: r := ⟨render Y, rfl⟩
-theorem render_nl_head (Y : List Item) : ∃ r, render (.tk .nl :: Y) = '\n' :: r := ⟨render Y, rfl⟩
 
 mutual
 theorem chain_iX : ∀ (s : Stmt), FragX s = true → ∀ (ind : Nat) (l : List Item) (rest : List Char),
